@@ -12,6 +12,104 @@ from flow import Facts
 from rules_common import where, returned_constants, is_null_test
 
 
+def d2(db, rep, rule="D2-NEWEST-FIRST"):
+    """rule lookup: newest rule set first, a set is eligible exactly when all its required flags are present, the first
+    rule with an emitter wins, and every registration takes a fresh last slot.  (C11's R-GUARD rests on this.)"""
+    gr = db.func("orc_target_get_rule", "orctarget")
+    fc = Facts(gr)
+    # ---- D2 ------------------------------------------------------------------
+    loops = [n for n in gr.walk() if n.k == "ForStmt"]
+    if len(loops) != 1:
+        raise AnalysisBroken("orc_target_get_rule: expected one search loop")
+    lp = loops[0]
+    from loops import counted
+    cl = counted(lp)
+    TG = gr.params[0]["name"]
+    ok = cl is not None and cl["dir"] == "desc" and cl["first"] == ("%s->n_rule_sets" % TG, -1) and cl["last"] == (None, 0)
+    rep.check(ok, rule, where(gr), "search-order",
+              "rule sets searched from the newest (n_rule_sets-1) down to 0",
+              "search loop is `for (%s; %s; %s)` (%s): a rule set registered later no longer takes precedence" %
+              (unparse(lp.c[0]), unparse(lp.c[1]), unparse(lp.c[2]), cl), line=lp.line)
+    rets = [r for r in gr.walk() if r.k == "ReturnStmt" and r.c and r.c[0] is not None and strip_casts(r.c[0]).v is None]
+    if not rets:
+        raise AnalysisBroken("orc_target_get_rule: no non-constant return")
+    from exprval import admitted
+    from exprval import variables
+    want = {(r_, f_) for r_ in range(8) for f_ in range(8) if (r_ & ~f_) == 0}
+    for r in rets:
+        conds = fc.conds(r)
+        from flow import single_defs
+        _sd = single_defs(gr)
+        res = lambda nm: _sd.get(nm)
+        allv = set()
+        for x in conds:
+            if x[0] != "switch":
+                allv |= variables(x[0], res)
+        # the two quantities are recognised by the field / parameter they denote, however they are reached
+        reqs = sorted(v for v in allv if v.endswith("required_target_flags"))
+        flgs = sorted(v for v in allv if v.endswith("target_flags") and not v.endswith("required_target_flags"))
+        REQ, FLG = (reqs + ["?req"])[0], (flgs + ["?flags"])[0]
+        got, rel = admitted(conds, (REQ, FLG), range(8), res)
+        rel = [x for x in rel if variables(x[0], res) & {REQ, FLG}]
+        if len(reqs) > 1 or len(flgs) > 1:
+            raise AnalysisBroken("orc_target_get_rule: several flag words in the guards: %s %s" % (reqs, flgs))
+        if not rel:
+            got = {(a, b) for a in range(8) for b in range(8)}
+        if False:
+            raise AnalysisBroken("orc_target_get_rule: no fact about %s / %s reaches `return rule` (renamed?)" % (REQ, FLG))
+        extra = sorted(got - want)
+        missing = sorted(want - got)
+        rep.check(not extra, rule, where(gr), "return-rule:all-required-flags",
+                  "a rule is returned only when every required flag of its set is present (guard equivalent to required & ~flags == 0 over all 3-bit masks)",
+                  "a rule can be returned although a required flag is missing, e.g. required=%s flags=%s (guards: %s)" %
+                  (bin(extra[0][0]) if extra else "", bin(extra[0][1]) if extra else "", [unparse(x[0]) + ("" if x[1] else " [false]") for x in rel]), line=r.line)
+        rep.check(not missing, rule, where(gr), "return-rule:no-valid-set-skipped",
+                  "no rule set whose required flags are all present is skipped",
+                  "a rule set is skipped although all its required flags are present, e.g. required=%s flags=%s (guards: %s)" %
+                  (bin(missing[0][0]) if missing else "", bin(missing[0][1]) if missing else "", [unparse(x[0]) + ("" if x[1] else " [false]") for x in rel]), line=r.line)
+        emit_ok = any(x[0] != "switch" and unparse(x[0]) == "rule->emit" and x[1] is True for x in conds) or \
+            any(x[0] != "switch" and "rule->emit" in unparse(x[0]) and "NULL" not in unparse(x[0]) and x[1] is True for x in conds) or \
+            any(x[0] != "switch" and strip_casts(x[0]).k == "BinaryOperator" and strip_casts(x[0]).op == "!=" and "rule->emit" in unparse(x[0]) and x[1] is True for x in conds)
+        rep.check(emit_ok, rule, where(gr), "return-rule:has-emitter", "a rule is returned only if it has an emitter",
+                  "rule returned without its emit pointer having been tested", line=r.line)
+
+    # ---- D2b: every registration takes a new, last slot -----------------------------------------
+    # "A rule set registered later takes precedence" holds because the search runs from the last slot down AND a later
+    # registration always lands in a later slot: every non-NULL return of orc_rule_set_new must hand out
+    # rule_sets + n_rule_sets of the count that is incremented on the way to the return.
+    rsn = db.func("orc_rule_set_new", "orcrule")
+    TG2 = [p_["name"] for p_ in rsn.params if "OrcTarget" in p_.get("ty", "")]
+    if len(TG2) != 1:
+        raise AnalysisBroken("orc_rule_set_new: target parameter not identified")
+    TG2 = TG2[0]
+    incs = [n for n in rsn.walk() if (n.k == "UnaryOperator" and n.op == "++" and access_path(n.c[0]) == "%s->n_rule_sets" % TG2) or
+            (n.k == "CompoundAssignOperator" and n.op == "+=" and access_path(n.c[0]) == "%s->n_rule_sets" % TG2 and strip_casts(n.c[1]).v == 1)]
+    nret = 0
+    for r in rsn.walk():
+        if r.k != "ReturnStmt" or not r.c or r.c[0] is None:
+            continue
+        e = strip_casts(r.c[0])
+        if e.v == 0 or unparse(e) in ("(void *)0", "0"):
+            continue
+        nret += 1
+        ok = False
+        why = "returns `%s`" % unparse(e)
+        if e.k == "DeclRefExpr":
+            defs = [strip_casts(d.c[1]) for d in rsn.walk() if d.k == "BinaryOperator" and d.op == "=" and access_path(d.c[0]) == e.name]
+            defs += [strip_casts(d.c[0]) for d in rsn.walk() if d.k == "VarDecl" and d.name == e.name and d.c and d.c[0] is not None]
+            good = [d for d in defs if d is not None and d.k == "BinaryOperator" and d.op == "+" and access_path(d.c[0]) == "%s->rule_sets" % TG2 and
+                    access_path(d.c[1]) == "%s->n_rule_sets" % TG2]
+            other = [d for d in defs if d not in good]
+            ok = bool(good) and not other and any(rsn.dominates(i_, r) for i_ in incs)
+            why = "`%s` is defined as %s; increment of n_rule_sets dominating the return: %s" % (e.name, [unparse(d) for d in defs], any(rsn.dominates(i_, r) for i_ in incs))
+        rep.check(ok, rule, where(rsn), "new-slot", "a registration always takes the slot after the last one",
+                  "orc_rule_set_new can hand out something other than a fresh last slot (%s): a rule set registered later then sits BELOW "
+                  "earlier ones in the search order and no longer takes precedence" % why, line=r.line)
+    if nret < 1:
+        raise AnalysisBroken("orc_rule_set_new: no non-NULL return")
+
+
+
 def run(ctx):
     db = ctx.db()
     rep = ctx.report
@@ -95,96 +193,36 @@ def run(ctx):
     rep.check(src_ok, "D1-SAME-SET", where(rr), "register-index-set", "index looked up in the set named by rule_set->opcode_major",
               "orc_rule_register looks the name up in a set other than the rule set's own")
 
-    # ---- D2 ------------------------------------------------------------------
-    loops = [n for n in gr.walk() if n.k == "ForStmt"]
-    if len(loops) != 1:
-        raise AnalysisBroken("orc_target_get_rule: expected one search loop")
-    lp = loops[0]
-    from loops import counted
-    cl = counted(lp)
-    TG = gr.params[0]["name"]
-    ok = cl is not None and cl["dir"] == "desc" and cl["first"] == ("%s->n_rule_sets" % TG, -1) and cl["last"] == (None, 0)
-    rep.check(ok, "D2-NEWEST-FIRST", where(gr), "search-order",
-              "rule sets searched from the newest (n_rule_sets-1) down to 0",
-              "search loop is `for (%s; %s; %s)` (%s): a rule set registered later no longer takes precedence" %
-              (unparse(lp.c[0]), unparse(lp.c[1]), unparse(lp.c[2]), cl), line=lp.line)
-    rets = [r for r in gr.walk() if r.k == "ReturnStmt" and r.c and r.c[0] is not None and strip_casts(r.c[0]).v is None]
-    if not rets:
-        raise AnalysisBroken("orc_target_get_rule: no non-constant return")
-    from exprval import admitted
-    from exprval import variables
-    want = {(r_, f_) for r_ in range(8) for f_ in range(8) if (r_ & ~f_) == 0}
-    for r in rets:
-        conds = fc.conds(r)
-        from flow import single_defs
-        _sd = single_defs(gr)
-        res = lambda nm: _sd.get(nm)
-        allv = set()
-        for x in conds:
-            if x[0] != "switch":
-                allv |= variables(x[0], res)
-        # the two quantities are recognised by the field / parameter they denote, however they are reached
-        reqs = sorted(v for v in allv if v.endswith("required_target_flags"))
-        flgs = sorted(v for v in allv if v.endswith("target_flags") and not v.endswith("required_target_flags"))
-        REQ, FLG = (reqs + ["?req"])[0], (flgs + ["?flags"])[0]
-        got, rel = admitted(conds, (REQ, FLG), range(8), res)
-        rel = [x for x in rel if variables(x[0], res) & {REQ, FLG}]
-        if len(reqs) > 1 or len(flgs) > 1:
-            raise AnalysisBroken("orc_target_get_rule: several flag words in the guards: %s %s" % (reqs, flgs))
-        if not rel:
-            got = {(a, b) for a in range(8) for b in range(8)}
-        if False:
-            raise AnalysisBroken("orc_target_get_rule: no fact about %s / %s reaches `return rule` (renamed?)" % (REQ, FLG))
-        extra = sorted(got - want)
-        missing = sorted(want - got)
-        rep.check(not extra, "D2-NEWEST-FIRST", where(gr), "return-rule:all-required-flags",
-                  "a rule is returned only when every required flag of its set is present (guard equivalent to required & ~flags == 0 over all 3-bit masks)",
-                  "a rule can be returned although a required flag is missing, e.g. required=%s flags=%s (guards: %s)" %
-                  (bin(extra[0][0]) if extra else "", bin(extra[0][1]) if extra else "", [unparse(x[0]) + ("" if x[1] else " [false]") for x in rel]), line=r.line)
-        rep.check(not missing, "D2-NEWEST-FIRST", where(gr), "return-rule:no-valid-set-skipped",
-                  "no rule set whose required flags are all present is skipped",
-                  "a rule set is skipped although all its required flags are present, e.g. required=%s flags=%s (guards: %s)" %
-                  (bin(missing[0][0]) if missing else "", bin(missing[0][1]) if missing else "", [unparse(x[0]) + ("" if x[1] else " [false]") for x in rel]), line=r.line)
-        emit_ok = any(x[0] != "switch" and unparse(x[0]) == "rule->emit" and x[1] is True for x in conds) or \
-            any(x[0] != "switch" and "rule->emit" in unparse(x[0]) and "NULL" not in unparse(x[0]) and x[1] is True for x in conds) or \
-            any(x[0] != "switch" and strip_casts(x[0]).k == "BinaryOperator" and strip_casts(x[0]).op == "!=" and "rule->emit" in unparse(x[0]) and x[1] is True for x in conds)
-        rep.check(emit_ok, "D2-NEWEST-FIRST", where(gr), "return-rule:has-emitter", "a rule is returned only if it has an emitter",
-                  "rule returned without its emit pointer having been tested", line=r.line)
+    d2(db, rep)
 
-    # ---- D2b: every registration takes a new, last slot -----------------------------------------
-    # "A rule set registered later takes precedence" holds because the search runs from the last slot down AND a later
-    # registration always lands in a later slot: every non-NULL return of orc_rule_set_new must hand out
-    # rule_sets + n_rule_sets of the count that is incremented on the way to the return.
-    rsn = db.func("orc_rule_set_new", "orcrule")
-    TG2 = [p_["name"] for p_ in rsn.params if "OrcTarget" in p_.get("ty", "")]
-    if len(TG2) != 1:
-        raise AnalysisBroken("orc_rule_set_new: target parameter not identified")
-    TG2 = TG2[0]
-    incs = [n for n in rsn.walk() if (n.k == "UnaryOperator" and n.op == "++" and access_path(n.c[0]) == "%s->n_rule_sets" % TG2) or
-            (n.k == "CompoundAssignOperator" and n.op == "+=" and access_path(n.c[0]) == "%s->n_rule_sets" % TG2 and strip_casts(n.c[1]).v == 1)]
-    nret = 0
-    for r in rsn.walk():
-        if r.k != "ReturnStmt" or not r.c or r.c[0] is None:
-            continue
-        e = strip_casts(r.c[0])
-        if e.v == 0 or unparse(e) in ("(void *)0", "0"):
-            continue
-        nret += 1
-        ok = False
-        why = "returns `%s`" % unparse(e)
-        if e.k == "DeclRefExpr":
-            defs = [strip_casts(d.c[1]) for d in rsn.walk() if d.k == "BinaryOperator" and d.op == "=" and access_path(d.c[0]) == e.name]
-            defs += [strip_casts(d.c[0]) for d in rsn.walk() if d.k == "VarDecl" and d.name == e.name and d.c and d.c[0] is not None]
-            good = [d for d in defs if d is not None and d.k == "BinaryOperator" and d.op == "+" and access_path(d.c[0]) == "%s->rule_sets" % TG2 and
-                    access_path(d.c[1]) == "%s->n_rule_sets" % TG2]
-            other = [d for d in defs if d not in good]
-            ok = bool(good) and not other and any(rsn.dominates(i_, r) for i_ in incs)
-            why = "`%s` is defined as %s; increment of n_rule_sets dominating the return: %s" % (e.name, [unparse(d) for d in defs], any(rsn.dominates(i_, r) for i_ in incs))
-        rep.check(ok, "D2-NEWEST-FIRST", where(rsn), "new-slot", "a registration always takes the slot after the last one",
-                  "orc_rule_set_new can hand out something other than a fresh last slot (%s): a rule set registered later then sits BELOW "
-                  "earlier ones in the search order and no longer takes precedence" % why, line=r.line)
-    if nret < 1:
-        raise AnalysisBroken("orc_rule_set_new: no non-NULL return")
+    # ---- D6: a set registered under a name is found under that name ------------------------------------
+    # orc_opcode_set_get compares the stored prefix with strcmp.  The copy made at registration must keep every
+    # character the prefix array has room for: strncpy (dst, src, sizeof dst - 1) keeps sizeof-1 characters,
+    # snprintf (dst, n, "%s", src) keeps n-1; anything that keeps fewer truncates names the array could hold.
+    rg = db.func("orc_opcode_register_static", "orcopcode")
+    rec = db.record("OrcOpcodeSet")
+    plen = [f_.get("alen") for f_ in rec["fields"] if f_["name"] == "prefix"]
+    if not plen or not plen[0]:
+        raise AnalysisBroken("OrcOpcodeSet.prefix: array length not found")
+    cap = None
+    for c in rg.calls():
+        if c.name in ("strncpy", "snprintf", "strcpy", "memcpy", "sprintf") and (access_path(c.args()[0]) or "").endswith(".prefix"):
+            if c.name == "strncpy":
+                cap = strip_casts(c.args()[2]).v
+            elif c.name == "snprintf":
+                nv = strip_casts(c.args()[1]).v
+                cap = None if nv is None else nv - 1
+            elif c.name == "memcpy":
+                cap = strip_casts(c.args()[2]).v
+            else:
+                cap = 10 ** 9          # unbounded copy: a memory-safety matter (C05), not a truncation
+            site = c
+    if cap is None:
+        raise AnalysisBroken("orc_opcode_register_static: copy into OrcOpcodeSet.prefix not recognised")
+    rep.check(cap >= plen[0] - 1, "D6-PREFIX-CAPACITY", where(rg), "prefix-copy",
+              "the registration keeps all %d characters the prefix array has room for" % (plen[0] - 1),
+              "orc_opcode_register_static keeps only %s characters of the set name although OrcOpcodeSet.prefix holds %d: a set registered under a "
+              "%d-character name is not found by orc_opcode_set_get, so its rules can never be attached" % (cap, plen[0] - 1, plen[0] - 1), line=site.line)
 
     # ---- D3 ------------------------------------------------------------------
     ee = db.func("orc_executor_emulate", "orcexecutor")
@@ -216,6 +254,7 @@ def run(ctx):
     fn = db.func("orc_opcode_find_by_name", "orcopcode")
     rep.saw(fn)
     lps = [n for n in fn.walk() if n.k == "ForStmt"]
+    from loops import counted
     cl4 = counted(lps[0]) if len(lps) == 1 else None
     ok = cl4 is not None and cl4["dir"] == "asc" and cl4["first"] == (None, 0) and cl4["last"] == ("n_opcode_sets", -1)
     rets = [r for r in fn.walk() if r.k == "ReturnStmt" and r.c and strip_casts(r.c[0]).v != 0]
